@@ -11,6 +11,7 @@
 #include "Map/Map.h"
 #include "Stream/DynamicMemoryWriter.h"
 #include "Stream/FileWriter.h"
+#include "../premain/premain.h"
 #include <algorithm>
 #include <map>
 #include <stdexcept>
@@ -220,6 +221,15 @@ struct TwinEnv : Family {
 				must(callLib(plan, [&] { auto m = std::make_unique<Map>(); out[key + ":Map()"] = toBytes([&](Stream::Writer& w) { m->Write(w); }); }, &what), "writing a default-constructed Map");
 				must(callLib(plan, [&] { auto a = std::make_unique<ArtFile>(); out[key + ":ArtFile()"] = toBytes([&](Stream::Writer& w) { a->Write(w); }); }, &what), "writing a value-initialised ArtFile");
 				must(callLib(plan, [&] { auto b = std::make_unique<BitmapFile>(BitmapFile::CreateIndexed(4, 5, -3)); out[key + ":CreateIndexed"] = toBytes([&](Stream::Writer& w) { b->WriteIndexed(w); }); }, &what), "writing a factory-made bitmap");
+				// WHEN in the program's life a call is made is environment too: one pass takes the results of a few calls made during static
+				// initialisation (before main, ahead of the library's own initialisers), the other makes the same calls now
+				{
+					std::vector<LifetimeProbe> now;
+					must(callLib(plan, [&] { now = computeLifetimeProbes(); }, &what), "the lifetime probes");
+					const auto& pre = preMainLifetimeProbes();
+					bool usePre = (e.stack & 4) != 0;
+					for (size_t q = 0; q < now.size() && q < pre.size(); ++q) { const LifetimeProbe& lp = usePre ? pre[q] : now[q]; std::vector<uint8_t> v2 = lp.bytes; v2.push_back(lp.ok ? 1 : 0); out[key + ":life:" + lp.name] = v2; }
+				}
 			} else if (v == "vol") {
 				struct In { std::string name; std::vector<uint8_t> data; };
 				std::vector<In> ins;
